@@ -141,6 +141,9 @@ func (br *BlockReader) Next() (blocks.Block, error) {
 	return blocks.NewBlockWithCid(data, c)
 }
 
+// readerSizeUnseekable marks a source that is an io.Seeker but cannot seek relative to its end.
+const readerSizeUnseekable = -2
+
 // BlockMetadata contains metadata about a block's section in a CAR file/stream.
 //
 // There are two offsets for the block section which will be the same if the
@@ -200,24 +203,28 @@ func (br *BlockReader) SkipNext() (*BlockMetadata, error) {
 
 	// move our reader forward; either by seeking or slurping
 
-	if brs, ok := br.r.(io.ReadSeeker); ok {
-		// carv1 and we don't know the size, so work it out and cache it so we
-		// can use it to determine over-reads
-		if br.readerSize == -1 {
-			cur, err := brs.Seek(0, io.SeekCurrent)
-			if err != nil {
-				return nil, err
-			}
-			end, err := brs.Seek(0, io.SeekEnd)
-			if err != nil {
-				return nil, err
-			}
+	brs, canSeek := br.r.(io.ReadSeeker)
+	// carv1 and we don't know the size, so work it out and cache it so we
+	// can use it to determine over-reads
+	if canSeek && br.readerSize == -1 {
+		cur, err := brs.Seek(0, io.SeekCurrent)
+		if err != nil {
+			return nil, err
+		}
+		end, err := brs.Seek(0, io.SeekEnd)
+		if err != nil {
+			// Not every io.Seeker can find its end (the DataReader of a CARv1 Reader
+			// cannot): skip over block data by reading instead.
+			br.readerSize = readerSizeUnseekable
+		} else {
 			br.readerSize = end
 			if _, err = brs.Seek(cur, io.SeekStart); err != nil {
 				return nil, err
 			}
 		}
+	}
 
+	if canSeek && br.readerSize != readerSizeUnseekable {
 		// seek forward past the block data
 		finalOffset, err := brs.Seek(int64(blockSize), io.SeekCurrent)
 		if err != nil {
